@@ -54,4 +54,5 @@ def main(tier):
     chk.run("R-SUBWINDOW", WN.subwindow, cx.cpp, floor=2)
     chk.run("R-CONSTPRESENT", B.constpresent, cx.repo, cx.templates, floor=1)
     chk.run("R-SWITCHFIT", B.switchfit, cx.repo, floor=1)
+    chk.run("R-CHOICETYPE", B.choicetype, cx.repo, cx.cpp, floor=2)
     return chk.finish()
